@@ -447,4 +447,53 @@ theorem tie_cached_constructors :
 database/sql that refuses it once the context is done) -/
 theorem tie_wire_txExecCtx : wireTxExecCtx = ["call exec(ctx, t.Tx, q, args...)", "return "] := by decide
 
+/-! ### round 5c: Goexit in the body -/
+
+open GoZero.C14.Spec in
+/-- the driver calls of a `transactOnConn` whose body leaves through `runtime.Goexit()` (the deferred closure runs,
+the function never returns): the pinned code takes the success branch, the patched one rolls back -/
+def goexitLog (fixed : Bool) (f : Faults) (evs : List Ev) : List Ev :=
+  if f.givesUp then badPrefix maxBeginAttempts []
+  else if !f.begin then badPrefix f.badConn [.begin false]
+  else badPrefix f.badConn (.begin true :: (evs ++ [if fixed then .rollback f.rollbackOk else .commit f.commitOk]))
+
+open GoZero.C14.Spec in
+/-- **Goexit in the body, semantically tied**: the term read from the source now, run with a body that calls
+`runtime.Goexit()`, makes exactly these driver calls — for every fault plan (incl. panicking Commit / Rollback
+and retried Begins) and every list of statement calls -/
+theorem tie_goexit_sem (f : Faults) (evs : List Ev) :
+    (run ⟨f, evs, .goexit⟩ transactOnConnBlk {}).log = goexitLog (decide (transactOnConnBlk = fixedBlk)) f evs := by
+  rcases tie_pinned_or_fixed with h | h
+  · have hne : decide (transactOnConnBlk = fixedBlk) = false := by rw [h]; decide
+    rw [hne, h]
+    obtain ⟨bg, cm, rb, bc, cp, rp, cc, rc⟩ := f
+    cases hg : Faults.givesUp ⟨bg, cm, rb, bc, cp, rp, cc, rc⟩ <;> cases bg <;> cases cp <;> cases cm <;>
+      simp [pinnedBlk, goexitLog, run, assign, doInit, evalCond, doRet, callBody, hg, badPrefix_append,
+        Faults.commitOk]
+  · have hne : decide (transactOnConnBlk = fixedBlk) = true := by rw [h]; decide
+    rw [hne, h]
+    obtain ⟨bg, cm, rb, bc, cp, rp, cc, rc⟩ := f
+    cases hg : Faults.givesUp ⟨bg, cm, rb, bc, cp, rp, cc, rc⟩ <;> cases bg <;> cases rp <;> cases rb <;>
+      simp [fixedBlk, goexitLog, run, assign, doInit, evalCond, doRet, callBody, fmtErr, argVal, hg, badPrefix_append,
+        Faults.rollbackOk]
+
+open GoZero.C14.Spec in
+/-- **Even when the body leaves through Goexit the transaction is begun at most once and ended exactly once** (by
+a Commit in the pinned code — the documented finding —, by a Rollback with the patch), as the last driver call. -/
+theorem goexit_still_ends_exactly_once (fixed : Bool) (f : Faults) (b : Body) :
+    endsExactlyOnce { log := goexitLog fixed f (runBody b).1, runs := 1, body := .nil, ret := none } = true ∧
+    beginsOnce { log := goexitLog fixed f (runBody b).1, runs := 1, body := .nil, ret := none } = true := by
+  have hall := runBody_all b
+  have h1 := filter_nil_of_all stmt_not_begin _ hall
+  have h2 := all_notBeginish _ hall
+  have h3 := filter_nil_of_all stmt_not_end _ hall
+  have h4 := any_false_of_all stmt_not_beginOk _ hall
+  generalize (runBody b).1 = evs at *
+  unfold goexitLog endsExactlyOnce beginsOnce begun count
+  cases hg : f.givesUp <;> cases hb : f.begin <;> cases fixed <;>
+    simp [filter_badPrefix isEnd rfl, filter_badPrefix isStmt rfl, filter_badPrefix isBegin rfl,
+      any_badPrefix isBeginOk rfl, dropWhile_badPrefix, getLast?_badPrefix, List.filter_cons, List.filter_append,
+      List.all_append, getLast?_cons_snoc, h1, h2, h3, h4, maxBeginAttempts, badPrefix] <;>
+    try decide
+
 end GoZero.C14.Tie
